@@ -198,13 +198,8 @@ func (server *SugarDB) handleCommand(ctx context.Context, message []byte, conn *
 		// effect (replaying it reproduces the dataset), and two writers can no longer interleave
 		// their read-modify-write steps. In a cluster the raft log provides the order.
 		if !server.isInCluster() {
-			verifhook.Yield("lock.write")
 			server.writeCommit.Lock()
-			verifhook.Note("write.locked")
-			defer func() {
-				verifhook.Note("write.unlocked")
-				server.writeCommit.Unlock()
-			}()
+			defer server.writeCommit.Unlock()
 		}
 	}
 
